@@ -3,7 +3,7 @@
        H (redeemer bytes ++ datum bytes (empty when there are no datums) ++ enc (language views))
    with the language views of the Plutus versions used as a canonical (length-first key order) CBOR map:
        V1 |-> key h'00' (bytes 41 00), value = BYTE STRING holding the indefinite-length list of the cost
-              parameters in the order of their names;
+              parameters in the order of their keys (names by code points, or integer positions numerically);
        V2 |-> key 1, V3 |-> key 2, value = definite-length list of the parameters in the given order.
    MODEL: pycardano/utils.py script_data_hash, plutus.py CostModels.to_shallow_primitive, the builder
    property TransactionBuilder.script_data_hash, redeemers() (map or list), and what build_witness_set
@@ -15,22 +15,47 @@ From PyC Require Import Base Cbor Value Redeemers.
 Import ListNotations.
 Open Scope N_scope.
 
-(* protocol_param.cost_models: version (1, 2, 3 for "PlutusV1".."PlutusV3") -> parameters (name, value) in dict order *)
-Definition costmodels := list (N * list (string * Z)).
-Definition cm_get (cm : costmodels) (version : N) : list (string * Z) :=
-  match lookupN version cm with Some l => l | None => [] end.      (* .get(f"PlutusV{version}", {}) *)
+(* protocol_param.cost_models: version (1, 2, 3 for "PlutusV1".."PlutusV3") -> the parameters of that language in
+   dict order.  The keys of one language's dict are either parameter NAMES (str: Blockfrost, Ogmios, the built-in
+   COST_MODELS; Ogmios v6 writes the PlutusV3 positions as zero-padded decimal strings, which are names here) or
+   integer POSITIONS (int: CardanoCliChainContext._parse_cost_models turns a cost model that cardano-cli reports as a
+   list into {i: v for i, v in enumerate(list)}).  A dict mixing str and int keys is not representable: sorted()
+   raises TypeError on it. *)
+Inductive params :=
+| ByName (l : list (string * Z))
+| ByPos (l : list (Z * Z)).
+Definition costmodels := list (N * params).
+Definition cm_get (cm : costmodels) (version : N) : params :=
+  match lookupN version cm with Some p => p | None => ByName [] end.      (* .get(f"PlutusV{version}", {}) *)
+
+(* {i: v for i, v in enumerate(vs)} *)
+Fixpoint enumerate_from (k : Z) (vs : list Z) : list (Z * Z) :=
+  match vs with [] => [] | v :: r => (k, v) :: enumerate_from (k + 1) r end.
+Definition enumerate (vs : list Z) : list (Z * Z) := enumerate_from 0 vs.
 
 (* ledger language ids: 0 = PlutusV1, 1 = PlutusV2, 2 = PlutusV3 *)
 Definition lang_id (l : lang) : option N :=
   match l with LNative => None | LV1 => Some 0 | LV2 => Some 1 | LV3 => Some 2 end.
 
+(* Python's order on the keys: str by code points, int numerically *)
 Definition name_ltb (a b : string * Z) : bool := str_ltb (fst a) (fst b).
+Definition pos_ltb (a b : Z * Z) : bool := (fst a <? fst b)%Z.
+(* [d[k] for k in sorted(d.keys())]: the values in ascending order of their keys (names by code points, positions
+   numerically: position 2 comes before position 10) *)
+Definition vals_by_key (p : params) : list Z :=
+  match p with
+  | ByName l => map snd (isort name_ltb l)
+  | ByPos l => map snd (isort pos_ltb l)
+  end.
+(* [d[k] for k in d.keys()]: the values in dict order *)
+Definition vals_in_order (p : params) : list Z :=
+  match p with ByName l => map snd l | ByPos l => map snd l end.
 
 (* ================= SPECIFICATION ================= *)
 Definition view (cm : costmodels) (l : N) : cbor * cbor :=
   if l =? 0
-  then (CB [x00], CB (enc (CAi (map (fun p => cint (snd p)) (isort name_ltb (cm_get cm 1))))))
-  else (CU l, CA (map (fun p => cint (snd p)) (cm_get cm (l + 1)))).
+  then (CB [x00], CB (enc (CAi (map cint (vals_by_key (cm_get cm 1))))))
+  else (CU l, CA (map cint (vals_in_order (cm_get cm (l + 1))))).
 Definition language_views (cm : costmodels) (langs : list N) : cbor :=
   CM (ksort (map (view cm) (dedup N.eqb langs))).
 Definition integrity_preimage (redeemer_bytes datum_bytes : bytes) (views : cbor) : bytes :=
@@ -81,8 +106,8 @@ Definition lk_ltb (a b : N) : bool :=
   (negb ka && kb) || (Bool.eqb ka kb && (a <? b)).
 Definition cm_entry (cm : costmodels) (l : N) : cbor * cbor :=
   if l =? 0
-  then (CB (enc (CU l)), CB (enc (CAi (map (fun p => cint (snd p)) (isort name_ltb (cm_get cm (l + 1)))))))
-  else (CU l, CA (map (fun p => cint (snd p)) (cm_get cm (l + 1)))).
+  then (CB (enc (CU l)), CB (enc (CAi (map cint (vals_by_key (cm_get cm (l + 1)))))))   (* sorted(cost_model.keys()) *)
+  else (CU l, CA (map cint (vals_in_order (cm_get cm (l + 1))))).                           (* cost_model.keys() *)
 (* cbor2.dumps of the resulting dict: entries in insertion order *)
 Definition cm_cbor (cm : costmodels) (keys : list N) : cbor := CM (map (cm_entry cm) (isort lk_ltb keys)).
 
